@@ -68,7 +68,10 @@ def compareLiteral (a b : Lit) : Option Int :=
         else some (cmpInt x y)
       | _, _ => none
     | .string => some (cmpStr a.lex b.lex)
-    | .langString => none                 -- two language-tagged strings: left unspecified
+    | .langString =>
+      -- rdflib orders two language-tagged strings by language tag, then by lexical form (`Literal.__gt__`); the
+      -- properties leave this ordering unspecified, the model follows the code
+      if a.lang = b.lang then some (cmpStr a.lex b.lex) else some (cmpStr a.lang b.lang)
     | .other _ =>
       match a.val, b.val with
       | .date x, .date y => some (cmpInt x y)
